@@ -37,6 +37,9 @@ TEXTCH = list("abcXYZ019 _-=+*/\\!?,;:%&()<>{}|^@#'`.") + ["[", "]"]
 CSVPATH_FIELDS = ["line_number", "count_scans", "count_matches", "identity", "delimiter", "quotechar", "valid", "stopped",
                   "count_lines", "count_lines", "count_lines", "line_number", "count_scans", "count_matches"]
 
+# thorough tier: additionally a coverage-guided campaign (vf/fuzz.py) over the same strategy and oracle
+FUZZ = {"runs": 1500, "procs": 8}
+
 
 def budget(tier):
     return 3200 if tier == "quick" else 48000
